@@ -119,6 +119,10 @@ def run(rep, tier):
     rep.floor = 10000
 
 
+def san_shards(tier):
+    return [("miri", [("tree", 500 + i, 0, 30, "miri") for i in range(16)])]
+
+
 def replay(path):
     d = json.load(open(path))
     r = d["replay"]
